@@ -127,9 +127,9 @@ def run(ctx, job):
             return {"cls": B.classify(e)}
         names = O.names_of(tl)
         A, b = O.matrix_of(tl, names)
-        feas = lp.feasible_formula(A, b)
+        wrong_if_claimed_empty, wrong_if_claimed_nonempty = lp.feasibility_claims(ctx.mode, A, b)
         ctx.tag(f"empty:{ans}")
-        ctx.obligation("emptiness-answer-exact", feas if ans else z3.Not(feas))
+        ctx.obligation("emptiness-answer-exact", wrong_if_claimed_empty if ans else wrong_if_claimed_nonempty)
         return {"cls": f"empty:{ans}", "res": {"cmp": ans}}
     # consistency: contained in L and L refines R  =>  contained in R
     ctx.tag("consistency")
